@@ -10,6 +10,7 @@ bootstrap.ensure()
 
 ID = "C11"
 LEVEL = "exploration"
+TECHNIQUE = "runtime monitoring: ordered differential execution on SQLite under both scan orders + per-call refusal monitor"
 RULE = (
     "seeded random SQL-engine programs saturated with sorts (total and partial) and slices in every position relative "
     "to projection (keeping / dropping the sort key), deduplication, selection, calculation, slice-after-slice, then "
